@@ -295,3 +295,5 @@ def run(chk, F):
     chk.run_rule("C06.superseded-fetch-abandons", "a fetch task whose in-flight entry was taken over (closed) neither polls its fetch nor inserts: both fetch arms test the flag first", 2, C11.fetch_checks, F)
     chk.run_rule("C06.close-alias", "the close flag seen by the fetch task is the one the in-flight table sets", 1, C11.close_alias, F)
     chk.run_rule("C06.cancel-answers", "a fetch task dropped in any state that still owns the in-flight entry takes it by id and answers every waiter", 7, cancel_answers, F)
+    from rules import mustcall
+    mustcall.run_for(chk, F, "C06")
